@@ -5,3 +5,4 @@ INVARIANT C19_Conf_TableCreated
 INVARIANT C19_Conf_ZLayout
 INVARIANT C19_Conf_ZWeights
 INVARIANT C19_Conf_CountCheck
+INVARIANT C19_Conf_LP
